@@ -336,40 +336,67 @@ func (c14) Exec(c Case) [][][]string {
 	}
 	// synchronous path: one EmitSync per row, on a fresh copy of the row (C20 is not ours)
 	s := streamsql.New(streamsql.WithDiscardLog(), streamsql.WithAnalyticMaxPartitions(q.cap))
-	if err := s.Execute(q.sql); err != nil {
-		fail("sync", "exec-error:"+hx(err.Error()))
-	} else {
-		for i, op := range c.Ops {
-			switch op[0] {
-			case "row":
-				_, row := c14Row(op)
-				res, err := s.EmitSync(c14CopyRow(row))
-				if err != nil {
-					out[i] = append(out[i], []string{"sync", "emit-error:" + hx(err.Error())})
-				} else {
-					out[i] = append(out[i], append([]string{"sync"}, c14Render(res)...))
-				}
-			case "pkey":
-				row := map[string]interface{}{}
-				if v, ok := c14Cell(op[1]); ok {
-					row["k1"] = v
-				}
-				if v, ok := c14Cell(op[2]); ok {
-					row["k2"] = v
-				}
-				out[i] = [][]string{{"key", hx(stream.VerifAnalyticPartitionKey(c14ColList(op[3], c14KeyCols), row))}}
-			default:
-				out[i] = [][]string{{"bad-op"}}
+	execErr := s.Execute(q.sql)
+	if execErr != nil {
+		fail("sync", "exec-error:"+hx(execErr.Error()))
+	}
+	for i, op := range c.Ops {
+		switch op[0] {
+		case "row":
+			if execErr != nil {
+				continue
 			}
+			_, row := c14Row(op)
+			res, err := s.EmitSync(c14CopyRow(row))
+			if err != nil {
+				out[i] = append(out[i], []string{"sync", "emit-error:" + hx(err.Error())})
+			} else {
+				out[i] = append(out[i], append([]string{"sync"}, c14Render(res)...))
+			}
+		case "pkey":
+			row := map[string]interface{}{}
+			if v, ok := c14Cell(op[1]); ok {
+				row["k1"] = v
+			}
+			if v, ok := c14Cell(op[2]); ok {
+				row["k2"] = v
+			}
+			out[i] = [][]string{{"key", hx(stream.VerifAnalyticPartitionKey(c14ColList(op[3], c14KeyCols), row))}}
+		default:
+			out[i] = [][]string{{"bad-op"}}
 		}
 	}
 	s.Stop()
 	// asynchronous path: Emit every row, then a sentinel row (id = -1, passes every generated WHERE
 	// through the `id < 0 OR …` disjunct); deliveries are attributed to their input row by id.
+	// The wait ends with the sentinel; the timeout only detects a lost sentinel, and a loss is
+	// re-tried once on a fresh instance so that a starved scheduler cannot decide a verdict.
+	lines, ok := c14Async(q, c)
+	if !ok {
+		lines, _ = c14Async(q, c)
+	}
+	for i, l := range lines {
+		if l != nil {
+			out[i] = append(out[i], l)
+		}
+	}
+	return out
+}
+
+// c14Async runs the row ops through Emit + synchronous sink; one line per row op (nil for other ops).
+func c14Async(q c14Query, c Case) ([][]string, bool) {
+	lines := make([][]string, len(c.Ops))
+	fail := func(what string) {
+		for i, op := range c.Ops {
+			if op[0] == "row" {
+				lines[i] = []string{"async", what}
+			}
+		}
+	}
 	a := streamsql.New(streamsql.WithDiscardLog(), streamsql.WithAnalyticMaxPartitions(q.cap))
 	if err := a.Execute(q.sql); err != nil {
-		fail("async", "exec-error:"+hx(err.Error()))
-		return out
+		fail("exec-error:" + hx(err.Error()))
+		return lines, true
 	}
 	defer a.Stop()
 	ch := make(chan []map[string]interface{}, 4096)
@@ -388,7 +415,7 @@ func (c14) Exec(c Case) [][][]string {
 	got := map[int][]map[string]interface{}{}
 	var order []int
 	sentinel := false
-	timeout := time.After(20 * time.Second) // failure detection only: the sentinel ends the wait
+	timeout := time.After(60 * time.Second)
 	for !sentinel {
 		select {
 		case b := <-ch:
@@ -402,8 +429,8 @@ func (c14) Exec(c Case) [][][]string {
 				order = append(order, id)
 			}
 		case <-timeout:
-			fail("async", "sentinel-lost")
-			return out
+			fail("sentinel-lost")
+			return lines, false
 		}
 	}
 	inOrder := sort.IntsAreSorted(order)
@@ -414,16 +441,16 @@ func (c14) Exec(c Case) [][][]string {
 		id, _ := c14Row(op)
 		switch rs := got[id]; {
 		case !inOrder:
-			out[i] = append(out[i], []string{"async", "out-of-order"})
+			lines[i] = []string{"async", "out-of-order"}
 		case len(rs) == 0:
-			out[i] = append(out[i], []string{"async", "x"})
+			lines[i] = []string{"async", "x"}
 		case len(rs) == 1:
-			out[i] = append(out[i], append([]string{"async"}, c14Render(rs[0])...))
+			lines[i] = append([]string{"async"}, c14Render(rs[0])...)
 		default:
-			out[i] = append(out[i], []string{"async", "duplicated"})
+			lines[i] = []string{"async", "duplicated"}
 		}
 	}
-	return out
+	return lines, true
 }
 
 // ---------------------------------------------------------------- generator
